@@ -1,7 +1,11 @@
 """C02 -- a multi-file stream reads as the concatenation of its data sections.
 Proof: Props/C02.v (refinement of the Stream model to a flat byte array for every operation history).
 Correspondence: Model/Stream.v under vm_compute vs FileReader on the same files and histories.
-Oracle: a plain bytes model (flat array + position) vs FileReader / FilReader.read_block."""
+Oracle: a plain bytes model (flat array + position) vs FileReader / FilReader.read_block.
+
+Operations are (name, arg) or, for a buffer read into something other than a bytearray, (name, arg, kind):
+the kind only selects the caller's buffer object (BUFKINDS); the model operation is always Creadinto(arg bytes).
+A history may be run on a freshly opened reader (no initial seek): the model's initial state is the first sample."""
 import itertools
 import os
 import re
@@ -11,6 +15,47 @@ import numpy as np
 
 import filutil
 import vlib
+
+# bit order of packed samples in SIGPROC data as sigpyproc documents it (BitsInfo.default_bitorder); the packing below is
+# plain shift arithmetic and shares no code with sigpyproc.io.bits / the kernels
+ORDER = {1: "little", 2: "big", 4: "big"}
+BUFKINDS = ("ba", "u1", "mvb", "u2", "mv2", "f4")
+
+
+def _shifts(nbits):
+    bf = 8 // nbits
+    return np.arange(bf) * nbits if ORDER[nbits] == "little" else (8 - nbits) - np.arange(bf) * nbits
+
+
+def np_unpack(raw, nbits):
+    a = np.frombuffer(bytes(raw), np.uint8).astype(np.uint16)
+    return ((a[:, None] >> _shifts(nbits)[None, :]) & ((1 << nbits) - 1)).astype(np.uint8).ravel()
+
+
+def np_pack(vals, nbits):
+    v = np.asarray(vals).astype(np.uint16).reshape(-1, 8 // nbits)
+    return (v << _shifts(nbits)[None, :]).sum(axis=1).astype(np.uint8).tobytes()
+
+
+def buf_kinds(n):
+    """buffer objects of exactly n bytes a caller may hand to creadinto"""
+    return ["ba", "u1", "mvb"] + (["u2", "mv2"] if n % 2 == 0 else []) + (["f4"] if n % 4 == 0 else [])
+
+
+def mk_buffer(n, kind):
+    if kind == "ba":
+        return bytearray(n)
+    if kind == "u1":
+        return np.zeros(n, np.uint8)
+    if kind == "mvb":
+        return memoryview(bytearray(n + 3))[:n]          # what read_plan passes: a slice of a larger byte buffer
+    if kind == "u2":
+        return np.zeros(n // 2, np.uint16)
+    if kind == "mv2":
+        return memoryview(np.zeros(n // 2 + 2, np.uint16))[:n // 2]
+    if kind == "f4":
+        return np.zeros(n // 4, np.float32)
+    raise KeyError(kind)
 
 
 def mk_files(d, rng, nfiles, isz, maxitems, hdr_marker=True):
@@ -37,20 +82,37 @@ def open_reader(paths, hdrs, datas, nbits):
     return FileReader(si, mode="r", nbits=nbits)
 
 
-def impl_run(fr, ops):
-    """returns list of (kind, bytes, pos): kind 0 unit, 1 bytes, 2 ValueError, 3 other error"""
+def impl_run(fr, ops, nbits=8):
+    """returns list of (kind, bytes, pos): kind 0 unit, 1 bytes, 2 ValueError, 3 other error.
+    nbits 1/2/4: the reader unpacks; Cread n asks for n bytes' worth of samples (n * 8/nbits units) and the samples are packed
+    back into bytes here; Creadinto passes an unpack buffer, which must hold the unpacked samples of the bytes that were read."""
     res = []
-    for op, arg in ops:
+    bf = 8 // nbits if nbits < 8 else 1
+    for o in ops:
+        op, arg = o[0], o[1]
         try:
             if op == "SeekSet":
                 fr.seek(arg, 0); r = (0, b"")
             elif op == "SeekCur":
                 fr.seek(arg, 1); r = (0, b"")
             elif op == "Cread":
-                a = fr.cread(arg); r = (1, a.tobytes())
+                a = fr.cread(arg * bf)
+                if nbits >= 8:
+                    r = (1, a.tobytes())
+                elif a.ndim != 1 or a.size != arg * bf or (a.size and int(a.max()) >> nbits):
+                    r = (3, f"cread({arg * bf}) at {nbits} bits returned {a.size} samples, max {a.max() if a.size else 0}".encode())
+                else:
+                    r = (1, np_pack(a, nbits))
             else:
-                buf = bytearray(arg)
-                n = fr.creadinto(buf); r = (1, bytes(buf[:n]))
+                buf = mk_buffer(arg, o[2] if len(o) > 2 else "ba")
+                if nbits >= 8:
+                    n = fr.creadinto(buf)
+                    r = (1, bytes(memoryview(buf).cast("B")[:n]))
+                else:
+                    ub = bytearray(arg * bf)
+                    n = fr.creadinto(buf, ub)
+                    raw = bytes(memoryview(buf).cast("B")[:n])
+                    r = (1, raw) if bytes(ub[:n * bf]) == np_unpack(raw, nbits).tobytes() else (3, b"unpack buffer differs from the unpacked bytes read")
         except ValueError:
             r = (2, b"")
         except Exception as e:  # noqa: BLE001
@@ -74,6 +136,8 @@ def spec_step(flat, isz, p, op, arg):
 
 
 def gen_ops(rng, total, isz, length, exhaustive_alphabet=None):
+    # offsets and buffer lengths are multiples of the item size (R.assume): an unaligned seek followed by a counted read of
+    # 2/4-byte items is outside the property
     ops = []
     for _ in range(length):
         c = rng.random()
@@ -84,23 +148,62 @@ def gen_ops(rng, total, isz, length, exhaustive_alphabet=None):
         elif c < 0.75:
             ops.append(("Cread", rng.randrange(0, total // isz + 2)))
         else:
-            ops.append(("Creadinto", isz * rng.randrange(1, total // isz + 3)))
+            n = isz * rng.randrange(1, total // isz + 3)
+            kind = rng.choice(buf_kinds(n))
+            ops.append(("Creadinto", n) if kind == "ba" else ("Creadinto", n, kind))
     return ops
 
 
 def coq_ops(ops):
-    return "[" + "; ".join(f"{o} ({a})" for o, a in ops) + "]"
+    return "[" + "; ".join(f"{o[0]} ({o[1]})" for o in ops) + "]"
+
+
+def write_raw_set(base, x, nbits, splits, tsamp=0.001, tstart=60000.0):
+    """like filutil.write_fil_set(vary_header=True), but only the headers are written by the library: the data sections are
+    written here with numpy (packed with np_pack below 8 bits), so the expected block does not pass through FileWriter/pack"""
+    from sigpyproc.header import Header
+    bounds = [0] + list(splits) + [x.shape[0]]
+    paths = []
+    for i in range(len(bounds) - 1):
+        a, b = bounds[i], bounds[i + 1]
+        p = f"{base}_{i}.fil"
+        hdr = Header(filename=os.path.basename(p), data_type="filterbank", nchans=x.shape[1], foff=-1.0, fch1=1500.0, nbits=nbits,
+                     tsamp=tsamp, tstart=tstart + a * tsamp / 86400.0, nsamples=b - a, rawdatafile="r" * (3 + 7 * i))
+        hdr.prep_outfile(p).close()
+        part = np.ascontiguousarray(x[a:b]).ravel()
+        raw = (np_pack(part, nbits) if nbits < 8 else
+               part.astype({8: "u1", 16: "<u2", 32: "<f4"}[nbits]).tobytes())
+        with open(p, "ab") as f:
+            f.write(raw)
+        paths.append(p)
+    return paths
+
+
+def rb_values(nprng, nbits, N, nch):
+    """sample values over the whole range of the depth (16 bits: both bytes vary; 32 bits: arbitrary finite floats)"""
+    if nbits == 32:
+        x = (nprng.standard_normal((N, nch)) * 10.0 ** nprng.integers(-3, 7, (N, nch))).astype(np.float32)
+        return x
+    return nprng.integers(0, 1 << nbits, (N, nch))
 
 
 def run(R: vlib.Run):
-    R.rule = ("streams of 1..3 raw files (arbitrary header bytes 0xE0+i, data bytes < 0xE0) at item widths 1/2/4 bytes; histories of "
-              "seek(o,0)/seek(o,1)/cread(n)/creadinto(n): all histories of length <= L over a boundary-adjacent alphabet on tiny files "
-              "(exhaustive part) + random histories of length <= 60 (aligned offsets); read_block over all (start,nsamps) incl. out of range "
-              "at depths 1..32.  distinct = distinct (files, history); non-trivial = history touches >= 1 data byte or error")
+    R.rule = ("streams of 1..3 raw files (arbitrary header bytes 0xE0+i, data bytes < 0xE0) at item widths 1/2/4 bytes and at 1/2/4 bits "
+              "(unpacking reader); histories of seek(o,0)/seek(o,1)/cread(n)/creadinto(n), on a freshly opened reader or after seek(0,0), "
+              "buffer reads into bytearray / uint8 / uint16 / float32 arrays and memoryview slices: all histories of length <= L over a "
+              "boundary-adjacent alphabet on tiny files (exhaustive part) + random histories of length <= 60 (aligned offsets); read_block "
+              "over all (start,nsamps>=1) incl. out of range at depths 1..32, headers of different lengths, full-range sample values, "
+              "data sections written by the library and by numpy.  distinct = distinct (files, history, initial state); "
+              "non-trivial = history touches >= 1 data byte or error")
     R.trusted += ["Coq 8.16.1 kernel + vm_compute", "tools/py2coq: seek arithmetic template-matched from fileio.py (_seek_set, cur_data_pos_stream)",
                   "hand model Model/Stream.v of cread/creadinto loops, tied by this correspondence run",
                   "refinement theorem is for byte-wide items (isz=1); 2/4-byte items are covered by correspondence + oracle only"]
-    R.assume += ["np.fromfile/readinto on regular files read as many bytes as exist", "per-file data sections hold a whole number of items"]
+    R.assume += ["np.fromfile/readinto on regular files read as many bytes as exist", "per-file data sections hold a whole number of items",
+                 "at 16/32 bits seek offsets are multiples of the item size whenever a counted read follows (after an unaligned seek "
+                 "np.fromfile drops the partial item at the end of a file; buffer reads of any byte length are exact and are checked)",
+                 "at 1/2/4 bits a counted read asks for a whole number of bytes (nunits a multiple of 8/nbits; cread floors otherwise), "
+                 "a buffer read passes an unpack_buffer, and one sample (nchans*nbits) is a whole number of bytes for read_block",
+                 "read_block is asked for nsamps >= 1 (nsamps <= 0 is neither in range nor demanded to raise)"]
     if "VERIF_CASE_TIMEOUT" not in os.environ:
         R.case_budget = 120.0 if R.tier == "quick" else 600.0   # every implementation call here is a tiny read, ticked individually
     R.prove("Props/C02.v")
@@ -108,28 +211,36 @@ def run(R: vlib.Run):
     rng = R.rng
     d = os.path.join(vlib.SCRATCH, f"c02_{os.getpid()}")
     os.makedirs(d, exist_ok=True)
-    batches = []   # (hdrs, datas, isz, ops, implres)
+    batches = []   # (hdrs, datas, isz, ops, implres, (fresh, nbits))
     try:
         # ---- exhaustive short histories on tiny byte files -----------------------------------
         L = 2 if R.tier == "quick" else 3
         tiny = [([b"\xe0"], [bytes([1, 2, 3])]), ([b"\xe0\xe0", b"\xe1"], [bytes([1, 2]), bytes([3, 4, 5])]),
                 ([b"\xe0", b"\xe1\xe1", b"\xe2"], [bytes([1, 2]), b"", bytes([3])]),
-                ([b"\xe0", b"\xe1", b"\xe2"], [bytes([1]), bytes([2, 3]), bytes([4, 5])])]
-        for hdrs, datas in tiny:
+                ([b"\xe0", b"\xe1", b"\xe2"], [bytes([1]), bytes([2, 3]), bytes([4, 5])]),
+                # fresh-reader histories only: the first data section is empty, so the first read has to leave file 0
+                ([b"\xe0\xe0", b"\xe1"], [b"", bytes([1, 2])])]
+        for ti, (hdrs, datas) in enumerate(tiny):
             paths = []
             for i, (h, dt) in enumerate(zip(hdrs, datas)):
                 p = os.path.join(d, f"t{i}.bin"); open(p, "wb").write(h + dt); paths.append(p)
             tot = sum(len(x) for x in datas)
             alpha = ([("SeekSet", o) for o in range(-1, tot + 1)] + [("SeekCur", o) for o in (-tot, -2, -1, 0, 1, 2)]
-                     + [("Cread", n) for n in (0, 1, 2, tot, tot + 1)] + [("Creadinto", n) for n in (1, 2, 3, tot + 1)])
+                     + [("Cread", n) for n in (0, 1, 2, tot, tot + 1)] + [("Creadinto", n) for n in (1, 2, 3, tot + 1)]
+                     + [("Creadinto", 2, "u2"), ("Creadinto", 4, "f4")])
             for ln in range(1, L + 1):
                 for ops in itertools.product(alpha, repeat=ln):
                     ops = list(ops)
-                    fr = open_reader(paths, hdrs, datas, 8)
-                    fr.seek(0, 0) if tot > 0 else None
-                    R.tick({"files": [list(x) for x in datas], "isz": 1, "ops": ops})
-                    res = impl_run(fr, ops); fr.close()
-                    batches.append((hdrs, datas, 1, ops, res))
+                    # fresh = no seek before the history (the state FileReader.__init__ leaves); a history that starts with an
+                    # absolute seek does not see the initial state, so those run only after seek(0,0) as before
+                    for fresh in ((False, True) if ti < 4 else (True,)):
+                        if fresh and ops[0][0] == "SeekSet":
+                            continue
+                        fr = open_reader(paths, hdrs, datas, 8)
+                        fr.seek(0, 0) if tot > 0 and not fresh else None
+                        R.tick({"files": [list(x) for x in datas], "isz": 1, "fresh_reader": fresh, "ops": ops})
+                        res = impl_run(fr, ops); fr.close()
+                        batches.append((hdrs, datas, 1, ops, res, (fresh, 8)))
         # ---- random longer histories, widths 1/2/4 -------------------------------------------
         nrand = 150 if R.tier == "quick" else 1500
         for _ in range(nrand):
@@ -140,24 +251,47 @@ def run(R: vlib.Run):
             if tot == 0:
                 continue
             ops = gen_ops(rng, tot, isz, rng.randrange(1, 60 if R.tier == "thorough" else 25), None)
+            if isz > 1 and rng.random() < 0.3:
+                ops.append(("Creadinto", rng.randrange(1, tot + 3)))   # a buffer read of any byte length, as the last operation
+            fresh = rng.random() < 0.4
             fr = open_reader(paths, hdrs, datas, nbits)
-            fr.seek(0, 0)
-            R.tick({"files": [list(x) for x in datas], "isz": isz, "ops": ops})
+            fr.seek(0, 0) if not fresh else None
+            R.tick({"files": [list(x) for x in datas], "isz": isz, "fresh_reader": fresh, "ops": ops})
             res = impl_run(fr, ops); fr.close()
-            batches.append((hdrs, datas, isz, ops, res))
+            batches.append((hdrs, datas, isz, ops, res, (fresh, nbits)))
+        # ---- random histories on an unpacking reader (1/2/4 bits; positions and counts in bytes of packed data) ----
+        for _ in range(45 if R.tier == "quick" else 450):
+            nbits = rng.choice([1, 2, 4])
+            nf = rng.randrange(1, 4)
+            paths, hdrs, datas = mk_files(d, rng, nf, 1, 9)
+            tot = sum(len(x) for x in datas)
+            if tot == 0:
+                continue
+            ops = gen_ops(rng, tot, 1, rng.randrange(1, 60 if R.tier == "thorough" else 25), None)
+            fresh = rng.random() < 0.4
+            fr = open_reader(paths, hdrs, datas, nbits)
+            fr.seek(0, 0) if not fresh else None
+            R.tick({"files": [list(x) for x in datas], "isz": 1, "nbits": nbits, "fresh_reader": fresh, "ops": ops})
+            res = impl_run(fr, ops, nbits); fr.close()
+            batches.append((hdrs, datas, 1, ops, res, (fresh, nbits)))
         # ---- oracle: bytes model --------------------------------------------------------------
-        for hdrs, datas, isz, ops, res in batches:
+        for hdrs, datas, isz, ops, res, (fresh, nbits) in batches:
             flat = b"".join(datas)
             touched = any(r[0] != 0 for r in res)
-            R.case((tuple(hdrs), tuple(datas), isz, tuple(ops)), nontrivial=touched, regime=f"isz{isz}_files{len(datas)}",
+            R.case((tuple(hdrs), tuple(datas), isz, tuple(ops), fresh, nbits), nontrivial=touched,
+                   regime=f"isz{isz}_files{len(datas)}" + (f"_nbits{nbits}" if nbits < 8 else "") + ("_fresh" if fresh else ""),
                    sample={"files": [len(x) for x in datas], "isz": isz, "ops": ops[:6]} if len(ops) == 3 else None)
             p = 0
-            for k, ((op, arg), got) in enumerate(zip(ops, res)):
+            for k, (o, got) in enumerate(zip(ops, res)):
+                op, arg = o[0], o[1]
                 want = spec_step(flat, isz, p, op, arg)
                 bad = got[0] != want[0] or got[1] != want[1] or (want[2] is not None and got[2] != want[2])
                 if bad:
-                    R.fail("stream-" + op.lower(), "FileReader differs from the flat byte-array model",
-                           {"hdrlens": [len(h) for h in hdrs], "datas": [list(x) for x in datas], "isz": isz, "ops": ops[:k + 1],
+                    # the suffix names the added regime the history belongs to (first that applies)
+                    sfx = "-bits" if nbits < 8 else "-typed" if len(o) > 2 else "-fresh" if fresh else ""
+                    R.fail("stream-" + op.lower() + sfx, "FileReader differs from the flat byte-array model",
+                           {"hdrlens": [len(h) for h in hdrs], "datas": [list(x) for x in datas], "isz": isz, "nbits": nbits,
+                            "fresh_reader": fresh, "ops": ops[:k + 1],
                             "got": (got[0], list(got[1]), got[2]), "expected": (want[0], list(want[1]), want[2])})
                     break
                 p = got[2] if want[2] is None else want[2]
@@ -166,7 +300,7 @@ def run(R: vlib.Run):
         for si in range(0, len(batches), per):
             sh = batches[si:si + per]
             rows = []
-            for hdrs, datas, isz, ops, res in sh:
+            for hdrs, datas, isz, ops, res, _tag in sh:
                 fs = "[" + "; ".join(f"mkfile {vlib.zlist(h)} {vlib.zlist(dt)}" for h, dt in zip(hdrs, datas)) + "]"
                 ex = "[" + "; ".join(f"({k}, {vlib.zlist(b if k == 1 else b'')}, {p})" for k, b, p in res) + "]"
                 rows.append(f"({fs}, {isz}, {coq_ops(ops)}, {ex})")
@@ -186,35 +320,44 @@ def run(R: vlib.Run):
             nums = [int(x) for x in re.findall(r"(\d+)%nat", vals[0])]
             R.extra_cov["traces_validated_against_impl"] = R.extra_cov.get("traces_validated_against_impl", 0) + (nums[0] if nums else 0)
             for bi in nums[1:4]:
-                hdrs, datas, isz, ops, res = sh[bi]
+                hdrs, datas, isz, ops, res, (fresh, nbits) = sh[bi]
                 R.disagree("Model/Stream.v and FileReader differ", {"hdrlens": [len(h) for h in hdrs], "datas": [list(x) for x in datas], "isz": isz,
+                                                                    "nbits": nbits, "fresh_reader": fresh,
                                                                     "ops": ops, "impl": [(k, list(b), p) for k, b, p in res]})
         # ---- read_block over real filterbank files ----------------------------------------------
+        # every file of a set has a header of a different byte length; "lib": data sections written by FileWriter.cwrite,
+        # "raw": written with numpy (sets of >= 2 files)
         from sigpyproc.readers import FilReader
         nprng = np.random.default_rng(R.seed)
         for nbits in (1, 2, 4, 8, 16, 32):
             for nf in (1, 2, 3):
+                # one sample is a whole number of bytes (R.assume): samp_stride = int(nchans*nbits/8) is not meaningful otherwise
                 nch = {1: 8, 2: 4, 4: 2, 8: 3, 16: 2, 32: 1}[nbits] * (1 if nf < 3 else 2)
                 N = 7
-                x = nprng.integers(0, 1 << min(nbits, 8), (N, nch))
+                x = rb_values(nprng, nbits, N, nch)
                 splits = sorted(nprng.choice(np.arange(1, N), size=nf - 1, replace=False).tolist()) if nf > 1 else []
-                paths = filutil.write_fil_set(os.path.join(d, f"rb{nbits}_{nf}"), x, nbits, splits)
-                fil = FilReader(paths)
-                for start in range(-1, N + 2):
-                    for ns in range(1, N + 3):
-                        inr = start >= 0 and start + ns <= N
-                        R.case(("rb", nbits, nf, start, ns), regime="read_block_" + ("in" if inr else "out"))
-                        try:
-                            b = fil.read_block(start, ns)
-                            if not inr:
-                                R.fail("read_block-range", "out-of-range read_block did not raise ValueError", {"nbits": nbits, "files": nf, "start": start, "nsamps": ns, "N": N})
-                            elif b.data.shape != (nch, ns) or not np.array_equal(np.asarray(b.data).T, x[start:start + ns]):
-                                R.fail("read_block-values", "read_block differs from the model slice", {"nbits": nbits, "splits": splits, "start": start, "nsamps": ns, "x": x.tolist()})
-                        except ValueError:
-                            if inr:
-                                R.fail("read_block-raise", "in-range read_block raised ValueError", {"nbits": nbits, "splits": splits, "start": start, "nsamps": ns, "N": N})
-                        except Exception as e:  # noqa: BLE001
-                            R.fail("read_block-exc", f"read_block raised {type(e).__name__}", {"nbits": nbits, "splits": splits, "start": start, "nsamps": ns, "N": N, "in_range": inr})
+                for writer in (("lib", "raw") if nf > 1 else ("lib",)):
+                    if writer == "lib":
+                        paths = filutil.write_fil_set(os.path.join(d, f"rb{nbits}_{nf}"), x, nbits, splits, vary_header=True)
+                    else:
+                        paths = write_raw_set(os.path.join(d, f"rr{nbits}_{nf}"), x, nbits, splits)
+                    fil = FilReader(paths)
+                    sfx = "" if writer == "lib" else "-rawfile"
+                    for start in range(-1, N + 2):
+                        for ns in range(1, N + 3):
+                            inr = start >= 0 and start + ns <= N
+                            R.case(("rb", nbits, nf, start, ns, writer), regime="read_block_" + ("in" if inr else "out") + sfx.replace("-", "_"))
+                            try:
+                                b = fil.read_block(start, ns)
+                                if not inr:
+                                    R.fail("read_block-range" + sfx, "out-of-range read_block did not raise ValueError", {"nbits": nbits, "files": nf, "start": start, "nsamps": ns, "N": N})
+                                elif b.data.shape != (nch, ns) or not np.array_equal(np.asarray(b.data).T, x[start:start + ns]):
+                                    R.fail("read_block-values" + sfx, "read_block differs from the model slice", {"nbits": nbits, "splits": splits, "start": start, "nsamps": ns, "x": x.tolist(), "data_written_by": writer})
+                            except ValueError:
+                                if inr:
+                                    R.fail("read_block-raise" + sfx, "in-range read_block raised ValueError", {"nbits": nbits, "splits": splits, "start": start, "nsamps": ns, "N": N, "data_written_by": writer})
+                            except Exception as e:  # noqa: BLE001
+                                R.fail("read_block-exc" + sfx, f"read_block raised {type(e).__name__}", {"nbits": nbits, "splits": splits, "start": start, "nsamps": ns, "N": N, "in_range": inr, "data_written_by": writer})
     finally:
         shutil.rmtree(d, ignore_errors=True)
 
@@ -222,7 +365,8 @@ def run(R: vlib.Run):
 
 
 def scale(R: vlib.Run):
-    """at-scale search: single reads of more than 2**16 / 2**22 / 2**24 items across file boundaries, large offsets, long histories"""
+    """at-scale search: single reads of more than 2**16 / 2**22 / 2**24 items across file boundaries, large offsets, long histories,
+    large typed buffers, a fresh reader, read_block of more than 2**22 items across a file boundary"""
     nprng = np.random.default_rng(R.seed + 202)
     d = os.path.join(vlib.SCRATCH, f"c02s_{os.getpid()}")
     os.makedirs(d, exist_ok=True)
@@ -245,21 +389,27 @@ def scale(R: vlib.Run):
                     [("SeekSet", isz * (b0 - 1)), ("Creadinto", isz * ((1 << 24) // isz + 11)), ("Cread", 1)],
                     [("SeekSet", isz * 100), ("Creadinto", isz * (tot + 5))],
                     [("SeekSet", isz * (b1 - 70000)), ("Cread", 70001), ("SeekCur", -isz * 3), ("Cread", 3), ("Cread", tot)],
-                    [("SeekSet", isz * (b0 - 5))] + [("Cread", 1 + (k % 3)) for k in range(3000)]]
+                    [("SeekSet", isz * (b0 - 5))] + [("Cread", 1 + (k % 3)) for k in range(3000)],
+                    # no initial seek (fresh reader), then buffer reads into typed arrays / a memoryview slice over both boundaries
+                    ["fresh", ("Cread", 5), ("Creadinto", 4 * 70_001, "f4"), ("SeekCur", isz * (b0 - 70_006 - 70_001 * 4 // isz)),
+                     ("Creadinto", 2 * 70_001 * isz, "u2"), ("Creadinto", 2 * ((1 << 22) + 3) * isz, "mv2"), ("Creadinto", len(flat), "u1")]]
             for ops in hist:
-                R.tick({"file_sizes": list(sizes), "isz": isz, "ops": ops[:12]})
-                R.case(("scale", isz, tuple(ops[:6])), regime="scale")
+                fresh = ops[0] == "fresh"
+                ops = ops[1:] if fresh else ops
+                R.tick({"file_sizes": list(sizes), "isz": isz, "fresh_reader": fresh, "ops": ops[:12]})
+                R.case(("scale", isz, tuple(ops[:6]), fresh), regime="scale")
                 fr = open_reader(paths, hdrs, datas, nbits)
-                fr.seek(0, 0)
+                fr.seek(0, 0) if not fresh else None
                 res = impl_run(fr, ops); fr.close()
                 p = 0
-                for k, ((op, arg), (kind, got, pos)) in enumerate(zip(ops, res)):
+                for k, (o, (kind, got, pos)) in enumerate(zip(ops, res)):
+                    op, arg = o[0], o[1]
                     ek, eb, ep = spec_step(flat, isz, p, op, arg)
                     if kind != ek or (ek == 1 and got != eb) or (ep is not None and pos != ep):
                         first = next((i for i in range(min(len(got), len(eb))) if got[i] != eb[i]), min(len(got), len(eb))) if ek == 1 and kind == 1 else None
                         R.fail("scale-stream", f"at-scale history: step {k} {op}({arg}) from position {p}: kind {kind} (expected {ek}), "
                                f"{len(got)} bytes (expected {len(eb)}), first differing byte {first}, position {pos} (expected {ep})",
-                               {"file_sizes": list(sizes), "isz": isz, "ops": ops[:k + 1] if k < 20 else ops[:6] + ["..."] + ops[k - 3:k + 1],
+                               {"file_sizes": list(sizes), "isz": isz, "fresh_reader": fresh, "ops": ops[:k + 1] if k < 20 else ops[:6] + ["..."] + ops[k - 3:k + 1],
                                 "data": f"numpy.random.default_rng({R.seed + 202}) stream, see props/c02.py scale()"})
                         break
                     if ep is None:
@@ -267,5 +417,27 @@ def scale(R: vlib.Run):
                     p = ep
             for pth in paths:
                 os.remove(pth)
+        # ---- read_block of more than 2**22 items across a file boundary (8-bit, 64 channels; data sections written with numpy) ----
+        from sigpyproc.readers import FilReader
+        nch, N, split = 64, 140_000, 66_001
+        x = nprng.integers(0, 256, (N, nch), dtype=np.uint8)
+        fil = FilReader(write_raw_set(os.path.join(d, "bigrb"), x, 8, [split]))
+        for start, ns in ((0, N), (100, N - 1000), (split - 1, 2), (split - 70_000, 70_001), (1, N), (N - 5, 6)):
+            inr = start >= 0 and start + ns <= N
+            case = {"nbits": 8, "nchans": nch, "N": N, "split": split, "start": start, "nsamps": ns,
+                    "data": f"numpy.random.default_rng({R.seed + 202}) stream, see props/c02.py scale()"}
+            R.tick(case)
+            R.case(("scale-rb", start, ns), regime="scale_read_block")
+            try:
+                b = fil.read_block(start, ns)
+                if not inr:
+                    R.fail("scale-read_block", "at-scale out-of-range read_block did not raise ValueError", case)
+                elif b.data.shape != (nch, ns) or not np.array_equal(np.asarray(b.data).T, x[start:start + ns]):
+                    R.fail("scale-read_block", "at-scale read_block differs from the model slice", case)
+            except ValueError:
+                if inr:
+                    R.fail("scale-read_block", "at-scale in-range read_block raised ValueError", case)
+            except Exception as e:  # noqa: BLE001
+                R.fail("scale-read_block", f"at-scale read_block raised {type(e).__name__}", case)
     finally:
         shutil.rmtree(d, ignore_errors=True)
